@@ -289,7 +289,7 @@ def f5(ctx):
                 if s['k'] == 'assign' and s['rv']['k'] == 'agg' and s['rv'].get('ak') == 'adt' and canon(s['rv']['name']) == 'future::FutureState' and s['rv']['variant'] == 'Zero':
                     ctx.oblige(1)
                     ctx.instance('%s sets FutureState::Zero' % kk)
-                    if kk not in (key, "future::SendFuture::<'a, T>::new", "future::ReceiveFuture::<'a, T>::new_ref"):
+                    if not fam.allowed_for(ctx, kk, {key, "future::SendFuture::<'a, T>::new", "future::ReceiveFuture::<'a, T>::new_ref"}):
                         ctx.violate(kk, None, 'future state reset to Zero outside the constructors / the stream re-arm', at=s.get('at'), sig='zero-writer')
     for p, evs in all_paths(ctx, b):
         if p.end != 'return':
@@ -445,7 +445,22 @@ def f7(ctx):
                 if len(tw) != 1 or not is_const(tw[0].data['val'], 1):
                     ctx.violate(key, p, 'stream does not remember that it ended (it would poll a finished future again)')
             else:
-                ctx.violate(key, p, 'unrecognised inner result')
+                # `let item = res.ok(); if item.is_none() { self.terminated = true } Poll::Ready(item)`:
+                # Result::ok maps Ok(d) -> Some(d), Err(_) -> None by definition; the flag must follow is_none()
+                rdy = ('field', ('downcast', polls[0].val, 'Ready'), '0')
+                r = p.ret
+                item = r[3][0] if r is not None and r[0] == 'agg' and r[2] == 'Ready' and r[3] else None
+                if item is not None and item[0] == 'call' and item[2] == 'std::result::Result::ok' and item[3] and item[3][0] == rdy:
+                    nb = [e for e in evs if e.name == 'BR' and e.data['label'] == 'opt_none' and contains(e.data['val'], item)]
+                    if not nb:
+                        ctx.violate(key, p, 'the end of the stream (item == None) is not detected')
+                    elif nb[-1].data['outcome'] == 'T':
+                        if len(tw) != 1 or not is_const(tw[0].data['val'], 1):
+                            ctx.violate(key, p, 'stream does not remember that it ended (it would poll a finished future again)')
+                    elif tw:
+                        ctx.violate(key, p, 'stream terminates itself on a value')
+                else:
+                    ctx.violate(key, p, 'unrecognised inner result')
         else:
             ctx.violate(key, p, 'poll result not examined')
 
